@@ -246,6 +246,17 @@ def run_once(ctx, cfg, flags, ivs, tag):
             p for p, n in store_nodes(e.state).items()
             if not n.inner and isinstance(n.value, Process)
             and get_in(e.processes, p, get_in(e.steps, p)) is not n.value]
+        if stop != 'end_after_run_for':
+            # what the published composite shows of each process (read
+            # through the wrapper for a parallel one); not after an unforced
+            # run_for, where a command may legitimately be pending
+            out['attrs'] = {
+                p: (n.value.name, sorted(
+                    k for k in n.value.parameters if k != '_parallel'),
+                    n.value.parameters.get('who'), n.value.is_step(),
+                    sorted(n.value.schema))
+                for p, n in store_nodes(e.state).items()
+                if not n.inner and isinstance(n.value, Process)}
         out['gone_not_stopped'] = [
             w for w in mpstub.WORKERS
             if id(w) not in live_workers and not (w.told_to_end and w.joined)]
@@ -356,6 +367,7 @@ def body(ctx, cfg):
         eq += [EQ(la[k], lb[k]) for k in la if k in lb]
     eq += [EQ(par['final'][k], serial['final'][k]) for k in par['final']
            if k in serial['final']]
+    eq.append(par.get('attrs') == serial.get('attrs'))
     ctx.claim('C13.transparent', AND(eq), sig='transparent:' + cfg['op'],
               info=lambda: dict(serial=serial['rows'], parallel=par['rows'],
                                 **info()))
